@@ -437,6 +437,10 @@ def install(mode):
         mod = importlib.import_module('supp.' + m)
         mod.__dict__['set'] = PermSet
         mod.__dict__['frozenset'] = PermSet
+        # sets built when the module was imported
+        for k, v in list(mod.__dict__.items()):
+            if type(v).__name__ in ('set', 'frozenset') and type(v).__module__ == 'builtins':
+                mod.__dict__[k] = PermSet(sorted(v, key=repr))
 '''
 
 ORDER_CORPUS = [
@@ -524,16 +528,26 @@ print(w, p1)
 ''', [(15, 7), (10, 18)], [(15, 7)]),
 ]
 
-ORDER_REPLAY = '''import sys, json; sys.path.insert(0, %(repo)r)
+# a source root whose file names carry multi-part extension suffixes: (relative path, content)
+ORDER_TREE = [('ext_mod.cpython-312-x86_64-linux-gnu.so', ''), ('abi_mod.abi3.so', ''), ('plain_so.so', ''), ('plain_mod.py', 'v = 1\n'),
+              ('pkg_o/__init__.py', ''), ('pkg_o/inner_ext.abi3.so', ''), ('pkg_o/inner_cp.cpython-312-x86_64-linux-gnu.so', ''), ('pkg_o/inner.py', 'w = 2\n')]
+ORDER_TREE_CALLS = [('import ', (1, 7)), ('import pkg_o.', (1, 13)), ('from pkg_o import ', (1, 18)), ('from . import ', (1, 14))]
+
+ORDER_REPLAY = '''import sys, json, os, tempfile, shutil; sys.path.insert(0, %(repo)r)
 ''' + PERMSET_SRC.replace('%', '%%') + '''
 from supp.project import Project
 import supp.linter, supp.assistant
 src = %(src)r
+root = tempfile.mkdtemp(prefix='supp-c17-')
+for rel, content in %(tree)r:
+    os.makedirs(os.path.dirname(os.path.join(root, rel)), exist_ok=True)
+    open(os.path.join(root, rel), 'w').write(content)
 outs = []
 for mode in (0, %(mode)d):
     install(mode)
-    p = Project(['/nonexistent'])
+    p = Project([root])
     outs.append(%(call)s)
+shutil.rmtree(root, ignore_errors=True)
 print('sets iterated in insertion order :', outs[0])
 print('sets iterated in another order   :', outs[1])
 print('REPRODUCED: the answer depends on the iteration order of a set' if outs[0] != outs[1] else 'not reproduced')
@@ -542,8 +556,8 @@ print('REPRODUCED: the answer depends on the iteration order of a set' if outs[0
 
 @harness(['C17'], 'supp.linter.lint / supp.assistant.assist / location [every set(...) of the analysis modules iterates in an adversarial order]',
          bounded='5 programs (branches, loops and try, class hierarchy with instance attributes, an attribute of a value merged from three branches, closures / globals / imports / comprehension) x '
-                 '{lint, assist and location at 1-2 cursor positions} x 4 iteration orders of every set constructed through set() / frozenset() '
-                 '(insertion order, reversed, rotated, interleaved)')
+                 '{lint, assist and location at 1-2 cursor positions} x 4 iteration orders of every set constructed through set() / frozenset() or held by a module global '
+                 '(insertion order, reversed, rotated, interleaved); a source root with 8 files of every extension-suffix shape x 4 import completions')
 def api_independent_of_set_order(run):
     """BOUNDED whole-API stand-in for the frame condition of C17: the real lint / assist / location with the name `set` of every analysis
     module bound to a set whose iteration order the checker picks; the answers must not change with the order.  Not counted as proved."""
@@ -573,9 +587,41 @@ def api_independent_of_set_order(run):
                 diff = [m for m in range(1, 4) if outs[m] != outs[0]]
                 if diff:
                     core.RUN.concretise = lambda model, ob, src=src, text=text, m=diff[0]: {
-                        'input': {'program': name, 'call': text}, 'script': ORDER_REPLAY % {'repo': core.REPO, 'src': src, 'mode': m, 'call': text}}
+                        'input': {'program': name, 'call': text}, 'script': ORDER_REPLAY % {'repo': core.REPO, 'src': src, 'mode': m, 'call': text, 'tree': []}}
                 prove('%s:%s-independent-of-set-order' % (name, label), not diff,
                       clause='%s gives the same answer under every iteration order of the sets [%s]' % (
                           text, 'same' if not diff else '%s  vs  %s' % (outs[0][:300], outs[diff[0]][:300])), path=path)
                 core.RUN.concretise = None
+        # module names taken from file names with multi-part suffixes (sets built at import time are permuted as well)
+        import os
+        import shutil
+        import tempfile
+        root = tempfile.mkdtemp(prefix='supp-c17-')
+        try:
+            for rel, content in ORDER_TREE:
+                os.makedirs(os.path.dirname(os.path.join(root, rel)), exist_ok=True)
+                with open(os.path.join(root, rel), 'w') as f:
+                    f.write(content)
+            for src, pos in ORDER_TREE_CALLS:
+                text = 'supp.assistant.assist(p, src, %r, os.path.join(root, "pkg_o", "edited.py"))' % (pos,)
+                outs = []
+                for mode in range(4):
+                    ns['install'](mode)
+                    try:
+                        outs.append(repr(A.assist(Pj.Project([root]), src, pos, os.path.join(root, 'pkg_o', 'edited.py'))))
+                    except Exception as e:
+                        outs.append('raised %s: %s' % (type(e).__name__, e))
+                diff = [m for m in range(1, 4) if outs[m] != outs[0]]
+                if diff:
+                    core.RUN.concretise = lambda model, ob, src=src, text=text, m=diff[0]: {
+                        'input': {'tree': [t[0] for t in ORDER_TREE], 'call': text}, 'script': ORDER_REPLAY % {
+                            'repo': core.REPO, 'src': src, 'mode': m, 'call': text, 'tree': ORDER_TREE}}
+                complete = all(n in outs[0] for n in (("'ext_mod'", "'abi_mod'", "'plain_so'", "'plain_mod'", "'pkg_o'") if src == 'import ' else
+                                                      ("'inner_ext'", "'inner_cp'", "'inner'")))
+                prove('extension-suffixes:%r-independent-of-set-order' % src, not diff and complete,
+                      clause='%s proposes every module of the tree under every iteration order of the sets [%s]' % (
+                          text, outs[0][-200:] if not diff else '%s  vs  %s' % (outs[0][-200:], outs[diff[0]][-200:])), path=path)
+                core.RUN.concretise = None
+        finally:
+            shutil.rmtree(root, ignore_errors=True)
     core.explore(lambda: None, lambda p, out: go(p))
